@@ -75,6 +75,7 @@ static void hier_run(const World &w, Output &o, int cls) {
     typedef amgcl::amg<DBackend, recorder<Coarsening>::template type, amgcl::relaxation::spai0> AMG;
     typename AMG::params prm;
     prm.coarse_enough = (unsigned)w.coarse_enough; prm.npre = (unsigned)w.npre; prm.npost = (unsigned)w.npre; prm.ncycle = (unsigned)w.ncycle;
+    if (w.ncycle > 1) prm.max_levels = 6;      // a W-cycle over a deep hierarchy costs 2^levels
     level_log().clear();
     gen::Csr A = w.A;
     AMG amg(A.tie(), prm);
@@ -197,6 +198,7 @@ static Output run_component(const World &w) {
         p.put("precond.relax.type", relax_names[w.relax]);
         p.put("precond.coarse_enough", w.coarse_enough);
         p.put("precond.npre", w.npre); p.put("precond.npost", w.npre); p.put("precond.ncycle", w.ncycle);
+        if (w.ncycle > 1) p.put("precond.max_levels", 6);      // a W-cycle over a deep hierarchy costs 2^levels
         p.put("solver.type", solver_names[w.solver]);
         p.put("solver.maxiter", 200);
         if (w.power_iters > 0 && w.coarsening == 2) { p.put("precond.coarsening.estimate_spectral_radius", true); p.put("precond.coarsening.power_iters", w.power_iters); }
